@@ -567,6 +567,16 @@ func evalRound(run *ev.Run, rl *roundLog, a *agg) {
 				if v.res == "queue-timeout" || v.res == "ctx-canceled" || v.res == "ctx-deadline" {
 					if v.queued {
 						sig = "enqueueRequest:ctx-done-after-dequeue"
+						// the single queue worker runs queued requests one after the other (it blocks in each execution).
+						// If another queued request started before this one and ended only after this one's caller had
+						// been answered, this request was taken off the queue after its queue wait had already ended,
+						// and must have been skipped, not run
+						for _, o := range views {
+							if o != v && o.queued && o.spec.Bucket == v.spec.Bucket && o.start >= 0 && o.start < v.start && o.end > v.ret {
+								sig = "processQueue:ran-a-request-dequeued-after-its-caller-was-answered"
+								break
+							}
+						}
 					} else {
 						sig = "direct-path:" + v.res
 					}
